@@ -26,7 +26,7 @@ FLOORS = {"quick": {"is_leap": 19998, "is_long_year": 19998, "days_in_year": 199
                        "local_time": 2 * 10**6, "getters": 7304118, "backend_eq": 2 * 10**6}}
 REQUIRED_HOOKS = ["py.is_leap", "py.week_day", "py.local_time", "rs.is_leap", "rs.week_day", "rs.local_time"]
 EXHAUSTIVE = {"quick": False, "thorough": True}
-TECHNIQUE = "runtime contracts on both implementations of the calendar primitives against datetime/calendar, driven by exhaustive enumeration of years and dates"
+TECHNIQUE = "runtime contracts on both implementations of the calendar primitives against datetime/calendar, driven by exhaustive enumeration of years and dates; getters read on Date, naive, UTC and zone-aware values; shards run under rotating calendar.setfirstweekday()"
 LEVEL_TEXT = ("every call of the five primitives in either implementation is judged against the standard library; the thorough tier "
               "drives them (and the Date/DateTime getters) over all 9999 years and all 3 652 059 dates, day-boundary timestamps "
               "+-1 s over the whole range and random (second, offset) pairs; exhaustive for the year and date sub-domains")
